@@ -181,4 +181,15 @@ def chainTypes (src : QRec) : List Node → Option (List NodeReport)
     | none => none
     | some r => (chainTypes r.output rest).map (r :: ·)
 
+/-! ### `interface.populate_quantizer`: the integer fields of a JSON entry of `_output_dict` -/
+def populate (q : QRec) : List (String × Int) :=
+  if q.isFloat then [("bits", q.bits)]
+  else if q.isPo2 then [("bits", q.bits), ("is_signed", b2i q.signed)]
+  else if q.mode = 3 ∨ q.mode = 4 then
+    [("bits", q.bits), ("int_bits", q.intBits), ("is_signed", b2i q.signed)]
+  else if q.mode = 2 then [("bits", 2), ("int_bits", 2), ("is_signed", 1)]
+  else if q.mode = 0 then
+    [("bits", q.bits), ("int_bits", q.intBits + b2i q.signed), ("is_signed", b2i q.signed)]
+  else []
+
 end QKV
